@@ -14,12 +14,12 @@ LOG=$OUT/verify.log; : > $LOG
 echo "repo HEAD: $(git rev-parse --short HEAD)" >> $LOG
 cp $OUT/demo.rs tests/seed_demo.rs
 echo "== demo WITHOUT the change" >> $LOG
-cargo test --offline --test seed_demo $EXTRA >> $LOG 2>&1; RC_CLEAN=$?
+cargo ${TOOLCHAIN:-} test --offline --test seed_demo $EXTRA >> $LOG 2>&1; RC_CLEAN=$?
 echo "rc=$RC_CLEAN" >> $LOG
 if ! git apply --check $OUT/patch.diff 2>>$LOG; then echo "RESULT $ID: patch does not apply to HEAD" | tee -a $LOG; rm -f tests/seed_demo.rs; exit 1; fi
 git apply $OUT/patch.diff
 echo "== demo WITH the change" >> $LOG
-timeout 600 cargo test --offline --test seed_demo $EXTRA >> $LOG 2>&1; RC_MUT=$?
+timeout 600 cargo ${TOOLCHAIN:-} test --offline --test seed_demo $EXTRA >> $LOG 2>&1; RC_MUT=$?
 echo "rc=$RC_MUT" >> $LOG
 rm -f tests/seed_demo.rs
 echo "== full suite WITH the change" >> $LOG
